@@ -1379,6 +1379,31 @@ pub mod verif {
         /// Reference count decrement of the inner node `data[0]` is about to
         /// happen
         pub const RELEASE: u32 = 12;
+        /// The blocking `lock()` of the apply cache bucket at address
+        /// `data[0]` returned (bucket locked by the calling thread)
+        pub const CACHE_BUCKET_LOCK: u32 = 13;
+        /// Apply cache insertion done: the entry of the bucket at address
+        /// `data[0]` is written and the bucket is still locked. `data[1]` is
+        /// the number of operand edges, `data[2]` the number of value edges,
+        /// followed by `(node ID, tag)` pairs of the operand edges and of the
+        /// value edges.
+        pub const CACHE_ADD_DONE: u32 = 14;
+        /// Apply cache hit in the bucket at address `data[0]` (bucket locked,
+        /// value edges not yet cloned), remaining data as for
+        /// `CACHE_ADD_DONE`
+        pub const CACHE_HIT: u32 = 15;
+        /// The apply cache starts to lock and clear its buckets before a
+        /// garbage collection: `data[0]` is the address of the first bucket,
+        /// `data[1]` the number of buckets, `data[2]` the size of a bucket in
+        /// bytes
+        pub const CACHE_PRE_GC: u32 = 16;
+        /// Before a garbage collection: the bucket of the last
+        /// `CACHE_BUCKET_LOCK` event of this thread is cleared and stays
+        /// locked
+        pub const CACHE_PRE_GC_BUCKET: u32 = 17;
+        /// After a garbage collection: the bucket at address `data[0]` (still
+        /// locked) is about to be unlocked
+        pub const CACHE_POST_GC_BUCKET: u32 = 18;
     }
 
     /// Callback type: hook site and event data
